@@ -10,6 +10,7 @@ Class kinds:
   'dc'  @struct.dataclass           'ptn'  class S(struct.PyTreeNode)
   'dci' / 'ptni'  the first field lives in a base class of the same kind
   'dck' / 'ptnk'  kw_only=True (defaults may then precede non-defaults)
+  'dcs'           @struct.dataclass(slots=True): dataclasses returns a *new* class
 """
 from __future__ import annotations
 
@@ -42,12 +43,16 @@ def cases(tier):
     out += [[ck, l] for ck in ('dci', 'ptni') for l in layouts(fk, 2) if len(l) == 2]
     out += [[ck, l] for ck in ('dck', 'ptnk') for l in layouts(fk, 2, kw_only=True)
             if len(l) == 2]
+    out += [['dcs', l] for l in layouts(fk, 2) if len(l) >= 1
+            and not any(d for _, d in l)]
     return out
   fk = ['bare', 'T', 'Tm', 'F', 'Fm']
   out = [[ck, l] for ck in ('dc', 'ptn') for l in layouts(fk)]
   out += [[ck, l] for ck in ('dci', 'ptni') for l in layouts(fk) if len(l) >= 2]
   out += [[ck, l] for ck in ('dck', 'ptnk')
           for l in layouts(['bare', 'T', 'F', 'Fm'], kw_only=True) if len(l) >= 1]
+  out += [['dcs', l] for l in layouts(['bare', 'T', 'F', 'Fm']) if len(l) >= 1
+          and not any(d for _, d in l)]
   return out
 
 
@@ -73,6 +78,8 @@ def make_class(struct, ckind, layout, defaults):
   names = NAMES[:len(layout)]
   fields = list(zip(names, [tuple(f) for f in layout]))
   kw = {'kw_only': True} if ckind.endswith('k') else {}
+  if ckind == 'dcs':
+    kw = {'slots': True}   # (fields with defaults clash with __slots__: layouts without defaults)
   split = 1 if ckind.endswith('i') else 0
   base_fields, own_fields = fields[:split], fields[split:]
   if ckind.startswith('dc'):
